@@ -55,6 +55,7 @@ def check(rr) -> list:
     out += C.check_body_counts(rr, relaxed_programs=relaxed)
     out += started_after_cancel(rr, info)
     out += leaks(rr, info, fates)
+    out += cancel_propagation(rr, info)
     out += [v for v in live if v['cls'] != 'HANG' and 'c/main' in v['sig']]
     return C._dedup(out)
 
@@ -176,6 +177,65 @@ def started_after_cancel(rr, info) -> list:
                            f'task {a} (node {started[a][0]}) started on {w} '
                            f'although its cancel had been handled there '
                            f'before it arrived'))
+    return out
+
+
+def cancel_propagation(rr, info) -> list:
+    """Every cancellation that entered the runtime (a task's cancel sent by
+    its worker, or the server's cancel of a compilation on behalf of a
+    client) reaches every worker: that is the only way descendants that
+    are, or will be, queued elsewhere can stop being started."""
+    out = []
+    snap = rr.idle_snapshot
+    if snap is None:
+        return out
+    alive = set(snap['workers'])
+    if not alive:
+        return out
+    idle_seq = getattr(rr, 'idle_seq', None) or 10 ** 12
+    sent = {}
+    got = {}
+    for seq, ev, src, dst, desc in C.wire(rr):
+        if seq > idle_seq or desc[0] != 'CANCEL' \
+                or not isinstance(desc[1], tuple):
+            continue
+        if ev == 'SEND' and (src.startswith('w') or src == 'server'):
+            sent.setdefault(desc[1], seq)
+        elif ev == 'RECV' and dst.startswith('w'):
+            got.setdefault(desc[1], set()).add(dst)
+    # client cancels of live compilations: the server must turn them into
+    # a CANCEL of the root task
+    srv = (snap.get('servers') or {}).get('server') or {}
+    tasks = srv.get('tasks') or {}
+    for ci, c in enumerate(rr.clients):
+        state = {}
+        ids = {}
+        for h in c['history']:
+            if h['i'] < 0 or h['kind'] != 'ok':
+                continue
+            op = h['op']
+            if op['op'] == 'submit':
+                state[op['as']] = 'submitted'
+                ids[op['as']] = h['val'][1]
+            elif op['op'] == 'result' and op.get('t') in state:
+                state[op['t']] = 'delivered'
+            elif op['op'] == 'cancel' and state.get(op.get('t')) \
+                    == 'submitted':
+                state[op['t']] = 'cancelled'
+                mb = tasks.get(ids[op['t']])
+                if mb is not None and h.get('ret', 0) <= idle_seq:
+                    sent.setdefault((-1, mb, 0), h['seq'])
+    info['cancels_tracked'] = len(sent)
+    for addr in sent:
+        missing = sorted(alive - got.get(addr, set()))
+        if missing:
+            out.append(C.V('CANCEL_NOT_PROPAGATED',
+                           'client-cancel' if addr[0] == -1
+                           else 'task-cancel',
+                           f'CANCEL {addr} never reached worker(s) '
+                           f'{missing} although they are alive at idle '
+                           f'quiescence'))
+            break
     return out
 
 
